@@ -37,6 +37,29 @@ PROPS = {
              "non-trivial = at least one justified OK and (a fault fired inside a check or an attacker request was judged); distinct = canonical event trace",
              {"runs": 4000, "budget_s": 35}, {"runs": 400000, "budget_s": 900}, level="fault_enumeration",
              must={"all": ["justified-ok", "ok-by-refresh", "sweep-single-faults", "sweep-pair-faults", "store-err-before", "store-err-after", "token-reset-after", "jwks-err", "crash-restart"]}),
+    "C04": P("plans = 2-3 browsers and an attacker start logins (sequentially or concurrently), then all callbacks run as concurrent tasks interleaved at store-call / token-endpoint granularity with "
+             "crafted callbacks (code and state taken from own / another browser's / forged / near-miss values, under own / another / no cookie; query variants: re-ordered, duplicated, "
+             "differently-cased, empty, extra, missing members, fragment), then replays of completed callbacks; the strict RFC 6749/7636 monitor judges every token request; "
+             "non-trivial = a login completed and a crafted callback reached the state lookup; distinct = event trace + schedule trace",
+             {"runs": 6000, "budget_s": 30}, {"runs": 600000, "budget_s": 900}, must={"all": ["logins-completed", "crafted-callback-reached-state-lookup", "crafted-callback-reached-token-endpoint"]}),
+    "C05": P("plans = histories in which clients present absent, stale, attacker-chosen, pending and authenticated session ids on protected, public and edge-case paths, cookie-name prefixes over "
+             "RFC 6265 token characters, all redirects of a run possibly at one frozen instant; every Set-Cookie is parsed by an independent RFC 6265 parser; store spy checks where tokens are written; "
+             "non-trivial = redirects answered at least two classes of presented id; distinct = canonical event trace",
+             {"runs": 8000, "budget_s": 30}, {"runs": 800000, "budget_s": 900},
+             must={"all": ["redirect-presented:none", "redirect-presented:pending", "redirect-presented:authenticated", "redirect-presented:stale", "redirect-presented:attacker-chosen", "tokens-bound"]}),
+    "C11": P("plans = one login followed by 3-30 token lifetimes of (IdP behaviour change; clock advance past expiry; request), the provider rotating refresh tokens, omitting id_token / access_token / "
+             "expires_in / refresh_token, echoing or emptying the nonce, rotating keys with and without publishing them, denying, forging refresh answers, and losing replies after processing; the "
+             "refresh-token ledger and the merge model judge every exchange; non-trivial = at least one successful refresh; distinct = canonical event trace",
+             {"runs": 8000, "budget_s": 30}, {"runs": 800000, "budget_s": 900},
+             must={"all": ["successful-refreshes", "failed-refreshes", "rotations-followed", "refresh-omitted-id-token", "token-reset-after"]}),
+    "C13": P("plans = login flows under configurations drawn for URL well-formedness: client ids, scopes, callback and authorization URIs with and without their own query, with reserved, space, "
+             "percent and non-ASCII characters; requested targets likewise; the provider-side strict parser (independent splitter/decoder) judges every Location; return Location compared byte for byte; "
+             "non-trivial = a login completed; distinct = canonical event trace x configuration",
+             {"runs": 8000, "budget_s": 30}, {"runs": 800000, "budget_s": 900}, must={"all": ["logins-completed"]}),
+    "C14": P("plans = the union mix: C01's fault-injecting histories, C09's concurrent logout races, C11's refresh histories with lost replies, a third of them with debug logging; every secret "
+             "(client secret, PKCE verifiers, refresh/access/ID tokens) is a unique marker searched in every answer, raw and after URL/base64 decoding; non-trivial = a non-OK answer was produced "
+             "while secrets were live; distinct = canonical event trace",
+             {"runs": 6000, "budget_s": 35}, {"runs": 600000, "budget_s": 900}, must={"all": ["non-ok-responses-while-secrets-live", "responses-scanned"]}),
 }
 
 
